@@ -1,8 +1,9 @@
 #!/bin/bash
 cd /verif
-runpatch() { d=$(mktemp -d); cp -r /repo/include $d/; (cd $d && patch -p1 -s < $2) || echo PATCHFAIL; echo "=== $1"; VERIF_REPO=$d timeout 3000 ./check C12 > build/C12/mut_$1.log 2>&1; echo "exit=$?"; grep -E "BROKEN|VIOLATION|done:" build/C12/mut_$1.log | cut -c1-230; rm -rf $d; }
+runpatch() { d=$(mktemp -d); cp -r /repo/include $d/; cp evidence/C12.json $d/ev_keep.json 2>/dev/null; ls replays > $d/replays_before.txt 2>/dev/null; (cd $d && patch -p1 -s < $2) || echo PATCHFAIL; echo "=== $1"; VERIF_REPO=$d timeout 3000 ./check C12 > build/C12/mut_$1.log 2>&1; echo "exit=$?"; grep -E "BROKEN|VIOLATION|done:" build/C12/mut_$1.log | cut -c1-230; cp $d/ev_keep.json evidence/C12.json 2>/dev/null; for r in $(ls replays | grep '^C12-'); do grep -qx "$r" $d/replays_before.txt || rm -f replays/$r; done; rm -rf $d; }
 run() {
   d=$(mktemp -d); cp -r /repo/include $d/
+  cp evidence/C12.json $d/ev_keep.json 2>/dev/null; ls replays > $d/replays_before.txt 2>/dev/null   # a mutant run must not leave evidence / replays behind
   python3 - "$d/include/momo/$2" "$3" "$4" <<'PY'
 import sys
 p,old,new=sys.argv[1:4]
@@ -12,6 +13,7 @@ open(p,'w').write(s.replace(old,new))
 PY
   echo "=== $1"; VERIF_REPO=$d timeout 3000 ./check C12 > build/C12/mut_$1.log 2>&1; echo "exit=$?"
   grep -E "BROKEN|VIOLATION|done:" build/C12/mut_$1.log | cut -c1-230
+  cp $d/ev_keep.json evidence/C12.json 2>/dev/null; for r in $(ls replays | grep '^C12-'); do grep -qx "$r" $d/replays_before.txt || rm -f replays/$r; done
   rm -rf $d
 }
 runpatch seed2a /tmp/seed-out2/C12/a/patch.diff
@@ -24,3 +26,4 @@ run G4 details/HashBucketLimP4.h "			for (size_t i = 0; i < maxCount; ++i)
 run G5 details/HashBucketOne.h "			if (mHashState != pvGetHashState(hashCode))
 				return nullptr;" "			if (mHashState == HashState{0})
 				return nullptr;"
+python3 /verif/props/C12/regen_clean.py   # leave the clean translation in the shared coq directory
